@@ -252,7 +252,7 @@ DryQuart = Volume.unit(name="dry quart", symbol="dry-quart")
 DryQuart.equals(2 * DryPint)
 
 DryGallon = Volume.unit(name="dry gallon", symbol="dry-gallon")
-DryGallon.equals(2 * DryQuart)
+DryGallon.equals(4 * DryQuart)
 
 Peck = Volume.unit(name="peck", symbol="pk.")
 Peck.equals(2 * DryGallon)
